@@ -26,6 +26,7 @@ ASSUMPTIONS = [
     "derived comment text = the two documented identifier forms (device settings print project 0000)",
 ]
 TIMEOUT = {"quick": 900, "thorough": 8 * 3600}
+OPTIMIZED_SHARDS = ("enum02", "rand01")  # these shards also run under python -O
 NSH = 16
 
 K = 0x0620
